@@ -260,6 +260,36 @@ def stage_equivariance(ck):
                 inner = tb[-1] if tb else None
                 fails.append({"obligation": "bounded.stage_equivariance", "clause": "%s evaluates on a batch of %d events" % (name, n), "input": {"stage": name, "events": n, "seed": ck.seed + 17},
                               "observed": "raised %r at %s:%s" % (ex, os.path.basename(inner.filename) if inner else "?", inner.lineno if inner else "?")})
+    # the optical stage with the real kernel (no stand-in): batches in which exactly one / exactly two events are inside the simulated altitude range
+    import contextlib
+    import io
+
+    import dask
+
+    for alts in ((25.0, 4.0, -1.0, 22.0), (3.0, 30.0, 9.0)):
+        n = len(alts)
+        c = cols(n)
+        c["alt"] = np.array(alts)
+        c["beta"] = np.radians(rng.uniform(3.0, 30.0, n))
+
+        def st_real(c_):
+            e_ = EAS(cfg)
+            with dask.config.set(scheduler="synchronous"), contextlib.redirect_stdout(io.StringIO()), np.errstate(all="ignore"):
+                return tuple(np.asarray(x, float) for x in e_(c_["beta"].copy(), c_["alt"].copy(), c_["E"].copy(), c_["lat"].copy(), c_["lon"].copy()))
+
+        try:
+            whole = st_real(c)
+            nev += n
+            perm = np.roll(np.arange(n), 1)
+            singles = [st_real(take(c, np.array([j]))) for j in range(n)]
+            for clause, want, got, extra in (("permuting the events permutes the rows", tuple(x[perm] for x in whole), st_real(take(c, perm)), {"permutation": perm.tolist()}),
+                                             ("an event evaluated alone gives its row of the batch", whole, tuple(np.concatenate([s_[i] for s_ in singles]) for i in range(2)), {})):
+                if not same(want, got):
+                    fails.append({"obligation": "bounded.stage_equivariance", "clause": "EAS.__call__ (real Cherenkov kernel): %s" % clause, "input": {"stage": "EAS.__call__", "decay altitudes": list(alts), "seed": ck.seed + 17, **extra},
+                                  "observed": {"batch rows": np.asarray(want[0], float).ravel()[:4].tolist(), "other evaluation": np.asarray(got[0], float).ravel()[:4].tolist()}})
+                    break
+        except Exception as ex:
+            fails.append({"obligation": "bounded.stage_equivariance", "clause": "EAS.__call__ (real Cherenkov kernel) evaluates a batch with %d event(s) in the simulated range" % sum(0 <= a <= 20 for a in alts), "input": {"decay altitudes": list(alts)}, "observed": "raised %r" % ex})
     # call history: objects that have evaluated all the batches above give, for one more batch, what freshly built objects give
     c = cols(9)
     try:
